@@ -88,6 +88,8 @@ def _selftests():
 
 
 def run(ctx):
+    from harness import growth
+    growth.safe(ctx, growth.fixed_steps)
     ctx.rule = ("one case = the whole history rdp_fixed(points,k), k=0..n+1 (n<=16; cut at k=14 above) for one "
                 "distance x ordering; tables over all index pairs of the largest member.  non-trivial: the chain has "
                 "at least 2 greedy steps and at least two splittable segments compete at some step (n >= 5)")
